@@ -405,6 +405,16 @@ pub fn validate_amount_decimals(amount: f64, currency: &str) -> Result<(), Parse
 /// - Amount format is invalid
 /// - Decimal precision exceeds currency limit (C03)
 pub fn parse_amount_with_currency(input: &str, currency: &str) -> Result<f64, ParseError> {
+    // Every currency amount is 15d: at most 15 characters including the decimal separator
+    if input.len() > 15 {
+        return Err(ParseError::InvalidFormat {
+            message: format!(
+                "Amount must not exceed 15 characters (15d), found {}",
+                input.len()
+            ),
+        });
+    }
+
     let amount = parse_amount(input)?;
 
     // Count decimals on the text: counting them on the f64 is unreliable for large amounts
